@@ -183,11 +183,11 @@ func encACCEPTFact(kind encFactKind, point base.Point, proposal, newblock util.H
 // ---- voteproofs
 
 type encVP struct {
-	VP      base.Voteproof
-	Expels  []base.SuffrageExpelOperation
-	Desc    string
-	Kind    string
-	Valid   bool
+	VP       base.Voteproof
+	Expels   []base.SuffrageExpelOperation
+	Desc     string
+	Kind     string
+	Valid    bool
 	Majority base.BallotFact
 }
 
